@@ -17,17 +17,24 @@ def run(ctx, replay_case):
     for low in range(4096):
         if low == 0 or (low >> 7) & 1 or (low >> 8) & 1:
             for h in highs:
-                if low == 0 and h:
-                    continue
+                # (words with reserved high bits set and all low twelve bits clear included: they are not zero, hence not SUCCESS,
+                # and have neither bit 7 nor bit 8: a TPM 1.2 style code - seed C18k keyed a memo of the text on the low bits)
                 vals.append(h | low)
     ops = [("INT", "TPM_RC", v) for v in vals]
-    bops = [("BITS", "TPM_RC", v) for v in vals if v]
+    bops = [("BITS", "TPM_RC", v) for v in vals if v & 0x180]      # rows: TPM 2.0 codes (c18_rows_partition speaks of their four layouts)
     impl = core.run_impl(ops + bops)
     model = core.run_model([core.op_line(o) for o in ops + bops])
     spec = core.run_model([f"INTP TPM_RC {v}" for v in vals])
     n = len(ops)
     corr = [i for i in range(len(ops + bops)) if impl[i] != model[i]]
     mon = [i for i in range(n) if impl[i] != spec[i]]
+    # the text of a code is a function of the code: the same sweep in the opposite order (other codes formatted before) must give
+    # the same texts
+    impl_rev = core.run_impl(list(reversed(ops)))[::-1]
+    mon += [i for i in range(n) if impl_rev[i] != spec[i] and i not in mon]
+    for i in range(n):
+        if impl_rev[i] != spec[i] and impl[i] == spec[i]:
+            impl[i] = impl_rev[i]
     for i in mon[:3]:
         ctx.violations.append({"kind": "concrete", "signature": f"rc:text:{vals[i] & 0xFFF:#x}",
                                "what": f"TPM_RC({vals[i]:#x}): text form differs from the TPM 2.0 format rules",
@@ -54,12 +61,12 @@ def run(ctx, replay_case):
                                        "replay": {"value": v, "rows": impl[n + j]}})
     # the classification carried by the rows' details: the same as the text form (which is checked against the format rules above)
     import re
-    dops = [("RCD", v) for v in vals if v]
+    dops = [("RCD", v) for v in vals if v & 0x180]
     det = core.run_impl(dops)
     dmodel = core.run_model([core.op_line(o) for o in dops])
     dcorr = [i for i in range(len(dops)) if det[i] != dmodel[i]]
     ndet = 0
-    for v, sp, dl in zip([v for v in vals if v], [spec[i] for i in range(n) if vals[i]], det):
+    for v, sp, dl in zip([v for v in vals if v & 0x180], [spec[i] for i in range(n) if vals[i] & 0x180], det):
         text = sp[0].split("fmt=", 1)[1]
         m = re.fullmatch(r"TPM_RC\.(\w+)(?: \((.*)\))?", text)
         rows = {l.split(" ", 2)[1]: l.split(" ", 2)[2] for l in dl if l.startswith("D ") and len(l.split(" ", 2)) == 3}
